@@ -1,14 +1,11 @@
 (* SOUNDNESS of the comparer on named netlists: whatever Comparer(a, b).compare() accepts is
-   structurally equivalent to a in the declarative sense of Cmp/Equiv.v - with the pins of every
-   wire in the same order, and up to properties that only b has (the comparer's one hole inside
+   structurally equivalent to a in the declarative sense of Cmp/Equiv.v - every wire carries the
+   same pins (in any order), and up to properties that only b has (the comparer's one hole inside
    the named fragment; closed by the hypothesis no_extra_props, or by comparing both ways). *)
 From Coq Require Import String List Arith NArith ZArith Bool Lia Permutation.
 From SV Require Import Base.Base Cmp.Comparer Cmp.Diff Cmp.Equiv
-  Proofs.CmpBase Proofs.CmpAccept Proofs.CmpReject.
+  Proofs.CmpBase Proofs.CmpPinSet Proofs.CmpAccept Proofs.CmpReject.
 Import ListNotations.
-
-Lemma check_accept b : check b = Accept <-> b = true.
-Proof. destruct b; cbn; split; congruence. Qed.
 
 Lemma compare_accept a b : compare a b = true <-> cmp_run a b = Accept.
 Proof. unfold compare. destruct (cmp_run a b); cbn; split; congruence. Qed.
@@ -35,9 +32,6 @@ Proof.
   induction la as [|x la IH]; intros lb HF; inversion HF; subst; intros z Hz; [contradiction|].
   destruct Hz as [<-|Hz]; [tauto|]. eapply IH; eassumption.
 Qed.
-
-Lemma Forall2_len {A B} (P : A -> B -> Prop) la lb : Forall2 P la lb -> length la = length lb.
-Proof. induction 1; cbn; congruence. Qed.
 
 Lemma Forall2_eq_refl {A} (l : list A) : Forall2 eq l l.
 Proof. induction l; constructor; auto. Qed.
@@ -121,75 +115,19 @@ Proof.
   apply Nat.eqb_eq in H6. repeat split; assumption.
 Qed.
 
-(* ---------- pins: an accepted pair of pins is the same designator ---------- *)
-Lemma inner_equiv_sound bo qo xo bc qc xc :
-  inner_equiv bo qo xo bc qc xc = Accept -> bo = bc /\ qo = qc.
-Proof.
-  unfold inner_equiv. intro H. apply seq_accept in H as [H1 H2].
-  apply check_accept in H1, H2. apply Nat.eqb_eq in H1. apply andb_true_iff in H2 as [H2 _].
-  apply oname_eqb_spec in H2. split; assumption.
-Qed.
-
-Lemma cmp_pin_sound xo xc io ic po pc :
-  not_asg io -> wf_pin io po = true -> cmp_pin xo xc io ic po pc = Accept -> pc = po.
-Proof.
-  intros Hna Hw Hc. destruct po as [q b|[n|] q b| | |]; try discriminate.
-  - (* a pin of a port of the definition *)
-    unfold cmp_pin in Hc. cbn [resolve] in Hc.
-    destruct pc as [q' b'|[n'|] q' b'|n' rd rl q' b'| |]; cbn [resolve] in Hc; try discriminate.
-    + apply inner_equiv_sound in Hc as [-> ->]. reflexivity.
-    + destruct (find (has_name i_name n') ic) as [i'|]; [|discriminate].
-      destruct (i_ref i'); discriminate.
-  - (* a pin of a child *)
-    destruct (wf_pin_out _ _ _ _ Hw) as [i [r [Ef [Er [Hin Hn]]]]].
-    pose proof (not_asg_name io i n Hna Hin Hn) as Hasg.
-    unfold cmp_pin in Hc. cbn [resolve] in Hc. rewrite Ef, Er in Hc.
-    destruct pc as [q' b'|[n'|] q' b'|n' rd rl q' b'| |]; cbn [resolve] in Hc; try discriminate.
-    + destruct (find (has_name i_name n') ic) as [i'|]; [|discriminate].
-      destruct (i_ref i') as [r'|]; [|discriminate].
-      apply seq_accept in Hc as [H1 H2].
-      cbn [op_bit op_port op_ref] in H2. apply inner_equiv_sound in H2 as [-> ->].
-      unfold inst_equiv in H1. cbn [op_inst] in H1. rewrite Hasg in H1.
-      apply seq_accept in H1 as [H1 _]. apply check_accept in H1. apply str_eqb_spec in H1.
-      subst n'. reflexivity.
-    + apply seq_accept in Hc as [H1 _]. unfold inst_equiv in H1. cbn [op_inst] in H1.
-      rewrite Hasg in H1. discriminate.
-    + apply seq_accept in Hc as [H1 _]. unfold inst_equiv in H1.
-      apply seq_accept in H1 as [_ H1]. cbn [op_ref op_parent fst snd] in H1.
-      destruct (oname_eqb (fst r) rd && oname_eqb (snd r) rl); [|discriminate].
-      destruct (fst xo); discriminate.
-Qed.
-
-Lemma cmp_pins_sound xo xc io ic : not_asg io -> forall wo wc,
-  forallb (wf_pin io) wo = true -> length wo = length wc ->
-  cmp_pins xo xc io ic wo wc = Accept -> wc = wo.
-Proof.
-  intros Hna. induction wo as [|p wo IH]; intros [|p' wc] Hw Hl Hc; try discriminate; [reflexivity|].
-  cbn in Hw. apply andb_true_iff in Hw as [Hw1 Hw2]. cbn in Hl. cbn [cmp_pins] in Hc.
-  apply seq_accept in Hc as [H1 H2].
-  rewrite (cmp_pin_sound _ _ _ _ _ _ Hna Hw1 H1), (IH wc Hw2 (eq_add_S _ _ Hl) H2). reflexivity.
-Qed.
-
-Lemma cmp_wire_sound xo xc io ic wo wc : not_asg io -> forallb (wf_pin io) wo = true ->
-  cmp_wire xo xc io ic wo wc = Accept -> wc = wo.
-Proof.
-  intros Hna Hw Hc. unfold cmp_wire in Hc. apply seq_accept in Hc as [H1 H2].
-  apply check_accept in H1. apply Nat.eqb_eq in H1. eapply cmp_pins_sound; eassumption.
-Qed.
-
 Lemma cmp_wires_sound xo xc io ic : not_asg io -> forall wo wc,
   forallb (forallb (wf_pin io)) wo = true -> length wo = length wc ->
-  cmp_wires xo xc io ic wo wc = Accept -> wc = wo.
+  cmp_wires xo xc io ic wo wc = Accept -> Forall2 wire_perm wo wc.
 Proof.
-  intros Hna. induction wo as [|w wo IH]; intros [|w' wc] Hw Hl Hc; try discriminate; [reflexivity|].
+  intros Hna. induction wo as [|w wo IH]; intros [|w' wc] Hw Hl Hc; try discriminate; [constructor|].
   cbn in Hw. apply andb_true_iff in Hw as [Hw1 Hw2]. cbn in Hl. cbn [cmp_wires] in Hc.
-  apply seq_accept in Hc as [H1 H2].
-  rewrite (cmp_wire_sound _ _ _ _ _ _ Hna Hw1 H1), (IH wc Hw2 (eq_add_S _ _ Hl) H2). reflexivity.
+  apply seq_accept in Hc as [H1 H2]. constructor.
+  - exact (cmp_wire_sound _ _ _ _ _ _ Hna Hw1 H1).
+  - exact (IH wc Hw2 (eq_add_S _ _ Hl) H2).
 Qed.
 
-Lemma cmp_cable_sound xo xc io ic o c : not_asg io -> wf_cable io o = true ->
-  cmp_cable xo xc io ic o c = Accept ->
-  c_name o = c_name c /\ c_oid o = c_oid c /\ c_wires c = c_wires o.
+Lemma cmp_cable_rel xo xc io ic o c : not_asg io -> wf_cable io o = true ->
+  cmp_cable xo xc io ic o c = Accept -> cable_rel wire_perm o c.
 Proof.
   intros Hna Hw Hc. unfold cmp_cable in Hc.
   apply seq_accept in Hc as [H1 Hc]. apply seq_accept in Hc as [H2 Hc].
@@ -197,13 +135,6 @@ Proof.
   apply check_accept in H1, H2, H3. apply oname_eqb_spec in H1, H2. apply Nat.eqb_eq in H3.
   split; [assumption|]. split; [assumption|].
   eapply cmp_wires_sound; eassumption.
-Qed.
-
-Lemma cmp_cable_rel xo xc io ic o c : not_asg io -> wf_cable io o = true ->
-  cmp_cable xo xc io ic o c = Accept -> cable_rel eq o c.
-Proof.
-  intros Hna Hw Hc. destruct (cmp_cable_sound _ _ _ _ _ _ Hna Hw Hc) as [H1 [H2 H3]].
-  split; [assumption|]. split; [assumption|]. rewrite H3. apply Forall2_eq_refl.
 Qed.
 
 (* ---------- instances ---------- *)
@@ -285,7 +216,7 @@ Lemma no_skip_false {A} (l : list A) : forall x, In x l -> no_skip x = false.
 Proof. reflexivity. Qed.
 
 Lemma cmp_def_sound lo lc o c : wf_def o = true -> no_asg_def o = true ->
-  cmp_def lo lc o c = Accept -> defn_rel props_sub eq o c.
+  cmp_def lo lc o c = Accept -> defn_rel props_sub wire_perm o c.
 Proof.
   intros Hwf Hna H. apply wf_def_unpack in Hwf. apply not_asg_of in Hna.
   unfold cmp_def in H. cbv zeta in H.
@@ -306,7 +237,7 @@ Proof.
 Qed.
 
 Lemma cmp_lib_sound o c : wf_lib o = true -> forallb no_asg_def (l_defs o) = true ->
-  cmp_lib o c = Accept -> lib_rel props_sub eq o c.
+  cmp_lib o c = Accept -> lib_rel props_sub wire_perm o c.
 Proof.
   unfold wf_lib. intros Hwf Hna H. apply andb_true_iff in Hwf as [Hn Hw].
   rewrite forallb_forall in Hw, Hna.
@@ -320,7 +251,7 @@ Qed.
 
 (* SOUNDNESS, unconditional form: an accepted b is a up to sibling order and up to properties
    that only b has.  Nothing is assumed about b. *)
-Theorem cmp_run_sound a b : wf_named a -> no_asg a -> cmp_run a b = Accept -> nv_covered a b.
+Theorem cmp_run_sound a b : wf_named a -> no_asg a -> cmp_run a b = Accept -> nv_covered_set a b.
 Proof.
   unfold wf_named, wf_namedb, no_asg, no_asgb. intros Hwf Hna H.
   apply andb_true_iff in Hwf as [Hwf Hw]. apply andb_true_iff in Hwf as [_ Hn].
@@ -334,11 +265,11 @@ Proof.
   intros x y Hx _ _ Hf. eapply cmp_lib_sound; [apply Hw; assumption|apply Hna; assumption|exact Hf].
 Qed.
 
-Theorem compare_sound_covered a b : wf_named a -> no_asg a -> compare a b = true -> nv_covered a b.
+Theorem compare_sound_covered a b : wf_named a -> no_asg a -> compare a b = true -> nv_covered_set a b.
 Proof. intros Hwf Hna H. apply compare_accept in H. apply cmp_run_sound; assumption. Qed.
 
 (* ---------- from "covered" to "equivalent" ---------- *)
-Theorem covered_equiv_ord a b : nv_covered a b -> no_extra_props a b -> nv_equiv_ord a b.
+Theorem covered_equiv_gen WR a b : nv_rel props_sub WR a b -> no_extra_props a b -> nv_rel props_eq WR a b.
 Proof.
   intros [H1 [H2 [H3 H4]]] [Et El].
   split; [assumption|]. split; [assumption|]. split.
@@ -359,7 +290,7 @@ Qed.
 Lemma Forall2_eq_perm (l l' : list wire) : Forall2 eq l l' -> Forall2 wire_perm l l'.
 Proof. induction 1; constructor; [subst; apply Permutation_refl|assumption]. Qed.
 
-Theorem equiv_ord_equiv a b : nv_equiv_ord a b -> nv_equiv a b.
+Theorem rel_ord_set PR a b : nv_rel PR eq a b -> nv_rel PR wire_perm a b.
 Proof.
   intros [H1 [H2 [H3 H4]]]. split; [assumption|]. split; [assumption|]. split; [assumption|].
   eapply sib_equiv_impl_in; [|exact H4]. cbn.
@@ -372,14 +303,22 @@ Proof.
   apply Forall2_eq_perm. assumption.
 Qed.
 
+Theorem equiv_ord_equiv a b : nv_equiv_ord a b -> nv_equiv a b.
+Proof. apply rel_ord_set. Qed.
+
+Theorem covered_ord_set a b : nv_covered a b -> nv_covered_set a b.
+Proof. apply rel_ord_set. Qed.
+
+Theorem covered_equiv_ord a b : nv_covered a b -> no_extra_props a b -> nv_equiv_ord a b.
+Proof. apply covered_equiv_gen. Qed.
+
+Theorem covered_equiv_set a b : nv_covered_set a b -> no_extra_props a b -> nv_equiv a b.
+Proof. apply covered_equiv_gen. Qed.
+
 (* SOUNDNESS: no structural difference is ever accepted *)
 Theorem compare_sound a b : wf_named a -> no_asg a -> no_extra_props a b ->
-  compare a b = true -> nv_equiv_ord a b.
+  compare a b = true -> nv_equiv a b.
 Proof.
-  intros Hwf Hna Hex H. apply covered_equiv_ord; [|assumption].
+  intros Hwf Hna Hex H. apply covered_equiv_set; [|assumption].
   apply compare_sound_covered; assumption.
 Qed.
-
-Theorem compare_sound_set a b : wf_named a -> no_asg a -> no_extra_props a b ->
-  compare a b = true -> nv_equiv a b.
-Proof. intros. apply equiv_ord_equiv. apply compare_sound; assumption. Qed.
